@@ -227,7 +227,13 @@ pub struct HostileCase { pub hash_seed: u64, pub setup: Vec<UStep>, pub reqs: Ve
 pub struct C17;
 pub const ENTRIES: [&str; 10] = ["execute_sparql_query", "execute_query_rayon_parallel2_volcano(SELECT)", "execute_sparql_update", "SparqlDatabase::execute_update", "SparqlDatabase::handle_update", "handle_http_request(GET query=)", "handle_http_request(POST application/sparql-query)", "handle_http_request(POST form query=)", "handle_http_request(POST form update=)", "handle_http_request(POST application/sparql-update)"];
 
-const SELECTS: [&str; 12] = [
+const SELECTS: [&str; 18] = [
+    "PREFIX e: <http://e/> PREFIX xsd: <http://www.w3.org/2001/XMLSchema#> SELECT ?s WHERE { ?s e:p0 ?o ; e:p1 ?x , ?y . FILTER (?o != \"v1\"@en) }",
+    "SELECT ?s WHERE { ?s <http://e/num> ?n FILTER ((?n + 1) >= (2 * 2)) } ORDER BY ?s",
+    "SELECT ?s WHERE { ?s a <http://e/Type> . ?s <http://e/p0> \"12\"^^<http://www.w3.org/2001/XMLSchema#integer> } # trailing comment",
+    "select ?s where { ?s <http://e/p0> 'single' . ?s <http://e/p1> \"\"\"long \"quoted\" text\"\"\" }",
+    "SELECT ?s ?o WHERE { ?s <http://e/p0> ?o . { SELECT ?s WHERE { ?s <http://e/p1> ?z } LIMIT 2 } }",
+    "SELECT ?s WHERE { << ?s <http://e/p0> ?o >> <http://e/certainty> ?c }",
     "SELECT ?s FROM <http://e/g0> WHERE { ?s ?p ?o }",
     "SELECT ?s ?g FROM NAMED <http://e/g5> WHERE { GRAPH ?g { ?s ?p ?o } }",
     "SELECT ?s FROM <http://e/gnone> FROM NAMED <http://e/g1> FROM NAMED <http://e/gabsent> WHERE { { ?s ?p ?o } UNION { GRAPH <http://e/gabsent> { ?s ?p ?o } } }",
@@ -241,7 +247,11 @@ const SELECTS: [&str; 12] = [
     "SELECT ?s WHERE { ?s <http://e/p0> \"v1\" . VALUES ?s { <http://e/n0> <http://e/n1> } }",
     "SELECT ?x WHERE { ?s <http://e/p0> ?o BIND(CONCAT(\"a\", \"b\") AS ?x) }",
 ];
-const UPDATES: [&str; 9] = [
+const UPDATES: [&str; 13] = [
+    "PREFIX e: <http://e/> INSERT DATA { e:n9 e:p0 e:n8 ; e:p1 \"x\" , \"y\" . }",
+    "PREFIX e: <http://e/> DELETE { ?s e:p0 ?o } INSERT { GRAPH e:g9 { ?s e:p0 ?o } } WHERE { ?s e:p0 ?o FILTER (?o != e:n1) }",
+    "INSERT DATA { <http://e/n9> <http://e/num> 42 . <http://e/n9> <http://e/num> -7 . <http://e/n9> <http://e/num> 3.5 }",
+    "INSERT { _:b <http://e/p0> ?o } WHERE { ?s <http://e/p0> ?o }",
     "INSERT DATA { <http://e/n9> <http://e/p0> <http://e/n8> }",
     "DELETE DATA { <http://e/n0> <http://e/p0> <http://e/n1> }",
     "INSERT { ?s <http://e/p1> ?o } WHERE { ?s <http://e/p0> ?o }",
